@@ -249,6 +249,25 @@ Example C17_set_absorbs_nonvacuous :
   touches_only (canon [x58; x2d; x41]) (classify KReq (OUnset [x58; x2d; x2a])) = false.
 Proof. vm_compute. repeat split. Qed.
 
+(* commutation: ANY two operations on two different headers - [on_header c s] (Proofs/HdrAlgebra.v):
+   a read, whole/sub-field/cookie set, add or unset whose canonical header name is c; a wildcard
+   unset is on no single header - do not see each other (each reply is what it would have been
+   without the other) and their order cannot be observed by any later history.  This is the frame
+   law "an operation on one header changes nothing about another" at full strength. *)
+Theorem C17_ops_on_different_headers_commute : forall kd st o1 o2 c1 c2 h,
+  on_header c1 (classify kd o1) = true -> on_header c2 (classify kd o2) = true -> beq c1 c2 = false ->
+  snd (step kd (after kd st o1) o2) = snd (step kd st o2) /\
+  snd (step kd (after kd st o2) o1) = snd (step kd st o1) /\
+  snd (run kd (after kd (after kd st o1) o2) h) = snd (run kd (after kd (after kd st o2) o1) h).
+Proof. exact ops_commute. Qed.
+
+Example C17_commute_nonvacuous :
+  on_header (canon [x58; x2d; x41]) (classify KReq (OSet [x78; x2d; x61; x3a; x6b] (VStr [x31]))) = true /\
+  on_header (canon [x58; x2d; x42]) (classify KReq (OGet [x58; x2d; x42; x3a; x6b])) = true /\
+  on_header (canon [x58; x2d; x42]) (classify KResp (OUnset [x78; x2d; x62])) = true /\
+  beq (canon [x58; x2d; x41]) (canon [x58; x2d; x42]) = false.
+Proof. vm_compute. repeat split. Qed.
+
 Print Assumptions C17_refine_step.
 Print Assumptions C17_refinement.
 Print Assumptions C17_get_field_refines.
@@ -286,3 +305,4 @@ Print Assumptions C17_unset_idempotent.
 Print Assumptions C17_unset_set_is_set.
 Print Assumptions C17_set_absorbs.
 Print Assumptions C17_unset_absorbs.
+Print Assumptions C17_ops_on_different_headers_commute.
